@@ -616,8 +616,27 @@ func encOutcome(o MsgOutcome) string {
 	return strings.Join(parts, " | ")
 }
 
-// ObsServer appends the state observations: RIB, election, sessions.
+// ObsServer appends the state observations: RIB, election, sessions — under a watchdog, like
+// ObsRIB (the election and session snapshots take locks of their own).
 func (h *SrvH) ObsServer(t *Trace) error {
+	tt := &Trace{}
+	done := make(chan error, 1)
+	go func() { done <- h.obsServer(tt) }()
+	select {
+	case err := <-done:
+		if err != nil {
+			return err
+		}
+		t.Lines = append(t.Lines, tt.Lines...)
+		return nil
+	case <-time.After(wd(30 * time.Second)):
+		noteIfWedged()
+		t.Add("hang")
+		return errHang
+	}
+}
+
+func (h *SrvH) obsServer(t *Trace) error {
 	if err := ObsRIB(t, h.S.VerifRIB()); err != nil {
 		return err
 	}
